@@ -1282,8 +1282,8 @@ fn walk_fields_of(case: &str) -> Option<&str> {
 /// evaluates `gcfiWords` / `gcfiChain` on them (MdModel/Walk/LayoutGen.lean) together with EVERY
 /// hypothesis of `walk_layout_cfi_generated` (`hyp=1`) and, for worlds of one module, the record-level
 /// side condition of `walk_layout_cfi_generated_one_module` (`one=1`: records inside the module and pairwise
-/// disjoint, linear search instead of range tables): stack pointer, stack bytes and chain must be the
-/// generated ones
+/// disjoint, linear search instead of range tables) resp. of `walk_layout_cfi_generated_world` for any number
+/// of modules (`rec=1`): stack pointer, stack bytes and chain must be the generated ones
 fn layout_cfi_mirror(case: &str, c: &Case, exp: &[Exp]) -> Result<(), String> {
     let p = ptr_of(&c.arch);
     let (base, bytes) = c.stack.as_ref().ok_or("no stack")?;
@@ -1331,7 +1331,7 @@ fn layout_cfi_mirror(case: &str, c: &Case, exp: &[Exp]) -> Result<(), String> {
     let walk_fields = walk_fields_of(case).ok_or("case line too short")?;
     let req = format!("chain layout cfi {base} {s0} {tail} {} {}", if frames.is_empty() { "-".to_string() } else { frames.join(",") }, walk_fields);
     let want = format!(
-        "hyp=1 one={} sp={sp} stack:{} exp:{}",
+        "hyp=1 one={} rec=1 sp={sp} stack:{} exp:{}",
         if c.mods.len() == 1 { "1" } else { "-" },
         hex(bytes),
         exp.iter().map(|e| format!("{},{},{}", e.ret, e.sp, e.fp.map(|x| x.to_string()).unwrap_or("-".into()))).collect::<Vec<_>>().join("|")
@@ -1560,9 +1560,7 @@ impl Engine for Chain {
             match layout_cfi_mirror(case, &c, &exp) {
                 Ok(()) => {
                     res.tags.push(format!("layout-tied:cfi-{}", c.arch));
-                    if c.mods.len() == 1 {
-                        res.tags.push("cfi-side-from-records".into());
-                    }
+                    res.tags.push(format!("cfi-side-from-records:{}-module", c.mods.len()));
                 }
                 Err(msg) => res.oracle.push(("layout-not-mirrored".into(), msg)),
             }
